@@ -49,6 +49,8 @@ pub const ALL_TYPES: [FileType; 5] = [
     FileType::Pack,
 ];
 
+static GLOBAL_SEQ: std::sync::atomic::AtomicU64 = std::sync::atomic::AtomicU64::new(0);
+
 pub type FileKey = (u8, Id);
 pub type Files = BTreeMap<FileKey, Bytes>;
 
@@ -313,8 +315,9 @@ impl SimBackend {
         if !s.log_reads && !kind.is_mutation() {
             return;
         }
-        let seq = s.seq;
-        s.seq += 1;
+        // one sequence over all stores of the process: a hot and a cold store share one history
+        let seq = GLOBAL_SEQ.fetch_add(1, std::sync::atomic::Ordering::SeqCst);
+        s.seq = seq + 1;
         s.log.push(Op {
             seq,
             actor: self.actor,
